@@ -79,6 +79,17 @@ def Tree.isNeg : Tree → Bool
   | .node (.neg _) _ _ _ => true
   | _ => false
 
+/-- literals that own a child in a rule node (comparisons do not). -/
+def Lit.needsChild : Lit → Bool
+  | .cmp _ _ _ => false
+  | _ => true
+
+/-- every comparison of the body evaluates to true under `β`. -/
+def cmpsHold (β : Bindings) : List Lit → Bool
+  | [] => true
+  | .cmp l op r :: ls => evalCmp l op r β == some true && cmpsHold β ls
+  | _ :: ls => cmpsHold β ls
+
 mutual
 /-- `valid prog base M tree`: the tree is a correct derivation of its conclusion.
     * fact/edb leaf: a stored fact;
@@ -97,23 +108,22 @@ def valid (prog : Program) (base M : DB) : Tree → Bool
   | .node (.rule idx β) pred args kids =>
     match prog[idx]? with
     | none => false
-    | some r => r.head.rel == pred && headMatches β r.head.args args && validBody prog base M β r.body kids
-/-- children against the body, left to right. -/
-def validBody (prog : Program) (base M : DB) (β : Bindings) : List Lit → List Tree → Bool
+    | some r => r.head.rel == pred && headMatches β r.head.args args && cmpsHold β r.body &&
+        validKids prog base M β (r.body.filter Lit.needsChild) kids
+/-- children against the child-owning literals of the body, left to right. -/
+def validKids (prog : Program) (base M : DB) (β : Bindings) : List Lit → List Tree → Bool
   | [], [] => true
   | .pos a :: ls, k :: ks =>
-    (match k with
-     | .node kk kp ka kc => kp == a.rel && argsMatch β a.args ka && valid prog base M (.node kk kp ka kc)) &&
-    validBody prog base M β ls ks
+    (k.pred == a.rel && argsMatch β a.args k.args && valid prog base M k) &&
+    validKids prog base M β ls ks
   | .neg a :: ls, k :: ks =>
-    (match k with
-     | .node (.neg pat) kp ka _ =>
-        kp == a.rel && pat == substituteAtom a β &&
-        ka == (substituteAtom a β).filterMap (fun | .conc v => some v | _ => none) &&
+    (match k.kind with
+     | .neg pat =>
+        k.pred == a.rel && pat == substituteAtom a β &&
+        k.args == (substituteAtom a β).filterMap (fun | .conc v => some v | _ => none) &&
         (world base M a.rel).all (fun t => !negBlockedBy β a t)
      | _ => false) &&
-    validBody prog base M β ls ks
-  | .cmp l op r :: ls, ks => evalCmp l op r β == some true && validBody prog base M β ls ks
+    validKids prog base M β ls ks
   | _, _ => false
 end
 
